@@ -2394,6 +2394,12 @@ def rule_queue(ctx):
     # push: the node is linked by a CAS on a `next` pointer that expects null and installs the new node; what
     # push_internal returns tells success from failure (whatever its type: bool, enum, Result); push returns only after a
     # success and retries otherwise
+    if (Q + "push_internal") not in prog.bodies:
+        # the linking step is not a function of its own any more: the same clauses on the paths of push itself, everything the
+        # queue keeps private read inlined, the retry loop unrolled
+        r.notes.append("push_internal does not exist: its clauses were judged on the paths of push (entry level)")
+        _queue_push_entry_level(ctx, r, Q)
+        return _queue_wrappers(ctx, r, Q, n, missing_internal)
     pi = prog.body(Q + "push_internal")
     r.functions.add(pi.name)
     newp = [("arg", k, pi.local_name(k)) for k in range(1, pi.arg_count + 1)
@@ -2490,6 +2496,51 @@ def rule_queue(ctx):
             r.instance("push retries only after push_internal failed", ok)
             if not ok:
                 r.violate(pu.name, "loop", "push retries although the node was linked (element pushed twice)", pu.loc(0))
+    return _queue_wrappers(ctx, r, Q, n, missing_internal)
+
+
+def _queue_push_entry_level(ctx, r, Q):
+    prog = ctx.prog
+    priv = {nm for nm, b in prog.bodies.items() if nm.startswith(Q) and b.kind != "closure"
+            and nm.split("::")[-1] not in ("try_pop", "try_pop_if", "push", "new")}
+    pu = prog.body(Q + "push")
+    r.functions.add(pu.name)
+    nret = 0
+    for p in Exec(prog, inline=priv, unroll=2).paths(pu):
+        if p.exit[0] == "diverge":
+            continue
+        r.paths += 1
+        owned = [e.result for e in p.events if e.kind == "call" and norm(e.target or "") == "ebr_impl::pointers::RawShared::from_owned"]
+        link = [(i, e) for i, e in enumerate(p.events) if e.kind == "call" and
+                norm(e.target or "") in ("ebr_impl::pointers::RawAtomic::compare_exchange",
+                                         "ebr_impl::pointers::RawAtomic::compare_exchange_weak")
+                and outer_field(e.args[0]) == "Node.next"]
+        for (li, le) in link:
+            exp_null = strip(le.args[1])
+            ok = isinstance(exp_null, tuple) and exp_null[0] == "call" and norm(exp_null[1]) == "ebr_impl::pointers::RawShared::null" \
+                and strip(le.args[2]) in owned
+            r.instance("push links its new node with a CAS expecting null", ok)
+            if not ok:
+                r.violate(pu.name, "link", "the new node is not linked by a CAS that expects a null next pointer", le.loc())
+        outs = [ctx.cas_outcome(p, le.result, li) for (li, le) in link]
+        if p.exit[0] == "return":
+            nret += 1
+            ok = bool(outs) and outs[-1] == "ok" and outs.count("ok") == 1
+            r.instance("push returns only after the node was linked (once)", ok)
+            if not ok:
+                r.violate(pu.name, "loop", "push returns although the node was not linked (element lost)" if "ok" not in outs
+                          else "push links the node more than once", pu.loc(0))
+        elif p.exit[0] == "retry":
+            ok = "ok" not in outs
+            r.instance("push retries only while the node is not linked", ok)
+            if not ok:
+                r.violate(pu.name, "loop", "push retries although the node was linked (element pushed twice)", pu.loc(0))
+    if nret < 1 and not r.violations:
+        r.floor_failures.append("EBR-QUEUE: no returning path of push found (entry level)")
+
+
+def _queue_wrappers(ctx, r, Q, n, missing_internal):
+    prog = ctx.prog
     # the retry wrappers: an attempt that lost the race for the head (Err) says nothing about emptiness or the predicate;
     # `None` may be returned only as the Ok payload of the last attempt
     nw = 0
